@@ -141,11 +141,37 @@ func genSearchC13(r *Rng, tier string, idx int, args map[string]string) []string
 		default:
 			q = genQuery(r, dbWords)
 		}
+		longQ := false
+		if r.Chance(1, 5) && len(dbWords) > 0 {
+			// more distinct content words than the term cap: term selection decides which words are
+			// searched at all; a boost on one of the trailing words must not influence that choice
+			longQ = true
+			seen := map[string]bool{}
+			var ws []string
+			for tries := 0; len(ws) < r.Range(11, 16) && tries < 200; tries++ {
+				w := Pick(r, dbWords)
+				if r.Chance(1, 4) {
+					w = Pick(r, c13Words)
+				}
+				if !seen[w] {
+					seen[w] = true
+					ws = append(ws, w)
+				}
+			}
+			q = strings.Join(ws, " ")
+		}
 		qWords := database.VerifTokenize(strings.ToLower(q))
 		o := genOptions(r)
 		o.PipelineBoost = Pick(r, []float64{0, 0, 1.5, 2})
 		o.UseNLP = r.Bool()
 		o.ContextBoosts = genBoostsC13(r, dbWords, qWords)
+		if longQ && len(qWords) > 5 { // boost words from the tail of the query
+			o.ContextBoosts = map[string]float64{}
+			for i, n := 0, r.Range(1, 3); i < n; i++ {
+				o.ContextBoosts[qWords[r.Range(4, len(qWords)-1)]] = Pick(r, []float64{1.5, 2, 3, 10, 1000})
+			}
+			o.TopTermsCap = Pick(r, []int{0, 0, 5, 8})
+		}
 		big := len(cmds) + 1 + r.Intn(4)
 		limits := []int{big}
 		if r.Chance(1, 2) {
